@@ -82,6 +82,19 @@ func genRawValue(t *rapid.T) interface{} {
 		ns := rapid.SampledFrom([]int64{0, 1, 999999999, 500000000}).Draw(t, "tns")
 		return time.Unix(sec, ns).UTC()
 	case 14:
+		if rapid.Bool().Draw(t, "longdur") {
+			// long durations whose sub-second part is a few nanoseconds away from a whole second
+			sec := rapid.SampledFrom([]int64{1 << 24, 20000000, 1 << 27, 315360000, 1 << 30, 1 << 32, 9000000000}).Draw(t, "dursec")
+			if rapid.Bool().Draw(t, "anydursec") {
+				sec = rapid.Int64Range(1<<24, 9000000000).Draw(t, "dursecv")
+			}
+			ns := rapid.SampledFrom([]int64{-1, -2, -3, 1, 999999999, 999999998, 0, 500000000}).Draw(t, "durns")
+			d := time.Duration(sec*1000000000 + ns)
+			if rapid.Bool().Draw(t, "negdur") {
+				d = -d
+			}
+			return d
+		}
 		return time.Duration(rapid.SampledFrom([]int64{0, 1, 999999999, 1000000000, 1500000000, -1500000000, -999999999, 3600 * 1e9, math.MaxInt64, math.MinInt64}).Draw(t, "dur"))
 	case 15:
 		return rapid.Bool().Draw(t, "rawbool")
